@@ -668,6 +668,12 @@ def run_grid(ctx):
                     prim = [by_num[j][datastart:datastart + enc_nums[2]] for j in range(k) if j in by_num]
                     impl.append("S;" + ",".join(hx(p) for p in prim))
                     metas.append(case)
+                    # every one of the N shares against zfec's code as transcribed by C36 (rs256Codec), and the model's
+                    # own download through that code; small files only (the model's GF arithmetic is list based)
+                    if size <= 3000 and sorted(by_num) == list(range(n)):
+                        lines.append("sharesrs %d %d %d %s %s" % (k, n, max_seg, hx(ks), hx(data)))
+                        impl.append("RS;" + ",".join(hx(by_num[j][datastart:datastart + enc_nums[2]]) for j in range(n)) + ";" + hx(data))
+                        metas.append(case)
                 # --- monitor: download with the returned cap gives the uploaded bytes (seeded delivery order)
                 node = c.create_node_from_uri(res.get_uri())
                 mc = MemoryConsumer()
@@ -716,6 +722,8 @@ def run_grid(ctx):
             elif ln.startswith("offsets "):
                 p = m.split(";")
                 m2.append("F;%s;%s" % (p[2], p[3]) if len(p) == 4 else "F;" + m)
+            elif ln.startswith("sharesrs "):
+                m2.append("RS;" + m)
             elif ln.startswith("shares ") or ln.startswith("sharesvia "):
                 m2.append("S;" + m.split(";")[0])
             else:
